@@ -97,7 +97,7 @@ def depth_bound(G):
     return len(G) + 1
 
 
-SHAPES = ["chain", "diamond", "ind_cycle", "ind_cycle_base", "co_cycle", "nested", "mixed", "amb_cycle", "stale_member", "random", "random3"]
+SHAPES = ["chain", "diamond", "ind_cycle", "ind_cycle_base", "co_cycle", "nested", "mixed", "amb_cycle", "stale_member", "nested_amb", "random", "random3"]
 
 
 def gen_graph(rng, shape=None, nmax=7):
@@ -142,6 +142,19 @@ def gen_graph(rng, shape=None, nmax=7):
             G[0] = (False, list(reversed(G[0][1])))
         if rng.random() < 0.3:
             G.append((False, [([1], False), ([0], False)]))
+    elif shape == "nested_amb":
+        # outer head 0 needs the inner head 1 and then node 2; the inner head 1 depends on itself through 2,
+        # on the outer head, and turns ambiguous in its FIRST iteration (an ambiguous alternative): the loop
+        # of 1 stops by the ambiguity shortcut although 1 is not the head of its component, and 2 was
+        # evaluated against the provisional value of 1; variants: clause orders, coinductive marks
+        co = rng.random() < 0.25
+        inner = [([2], False), ([], True), ([0], False)]
+        if rng.random() < 0.4:
+            rng.shuffle(inner)
+        G = [(co, [([1, 2], False)]), (co, inner), (co, [([1], False)])]
+        if rng.random() < 0.3:
+            G.append((co, [([2], False), ([], False)]))
+            G[0] = (co, [([1, 2, 3], False)])
     elif shape == "stale_member":
         # head 0 -> member 1 -> 0 (a cycle); node 2 reaches the member AFTER it was popped (still provisional);
         # the head's final value differs from its provisional one, so 2 must not be final before the head is:
